@@ -360,13 +360,20 @@ theorem store_layer_can_diverge_witness :
     (openNodeE demoA (fun _ => ⟨500, 9⟩) (fun _ => ⟨500, 9⟩) (crash n)).live = [(1, 5), (999, 9)] := by
   decide
 
-/-- what `covered` does NOT include, stated rather than hidden: RANDOMBLOB with a 16-digit hex
-literal ≥ 2^63 (the rewriter leaves it alone — C14's `blobLen` —, SQLite reads it as negative and
-returns one random byte); a 15-digit one is covered. -/
-theorem hex_literal_not_covered :
-    covered (.call "randomblob" (.cons (.lit "number" "0xFFFFFFFFFFFFFFFF") .nil) .nil) = false ∧
-    covered (.call "randomblob" (.cons (.lit "number" "0x8000000000000000") .nil) .nil) = false ∧
-    covered (.call "randomblob" (.cons (.lit "number" "0x10") .nil) .nil) = true := by
+/-- which RANDOMBLOB arguments are covered, stated rather than hidden (`covered` asks the
+rewriter model's top-level `blobLenOfArgs`): since fix 2d6515f the literals SQLite reads as less
+than one — 16-digit hex literals ≥ 2^63, 0, negative and fractional ones — are pinned (one
+byte) and covered; a computed size, a size above SQLite's maximum and `-0x8000000000000000`
+(which SQLite rejects) are left alone by design and are not. -/
+theorem blob_literal_coverage :
+    covered (.call "randomblob" (.cons (.lit "number" "0xFFFFFFFFFFFFFFFF") .nil) .nil) = true ∧
+    covered (.call "randomblob" (.cons (.lit "number" "0x8000000000000000") .nil) .nil) = true ∧
+    covered (.call "randomblob" (.cons (.other "UnaryExpr:-" (.cons (.lit "number" "1") .nil)) .nil) .nil) = true ∧
+    covered (.call "randomblob" (.cons (.lit "number" "0") .nil) .nil) = true ∧
+    covered (.call "randomblob" (.cons (.lit "number" "0x10") .nil) .nil) = true ∧
+    covered (.call "randomblob" (.cons (.lit "number" "1000000001") .nil) .nil) = false ∧
+    covered (.call "randomblob" (.cons (.other "UnaryExpr:-" (.cons (.lit "number" "0x8000000000000000") .nil)) .nil) .nil) = false ∧
+    covered (.call "randomblob" (.cons (.other "BinaryExpr" (.cons (.lit "number" "1") (.cons (.lit "number" "1") .nil))) .nil) .nil) = false := by
   decide
 
 /-! ### regenerated facts -/
